@@ -25,7 +25,7 @@ ASSUMPTIONS = [
     "pandas round trips are checked for column types pandas can carry (no list-valued or quality columns).",
 ]
 REQUIRED_CLASSES = ["table-read-from-file", "dict-roundtrip", "bam", "concat", "sort_by", "replace", "add_fields", "pandas", "from_entry_tuples", "bad-construction", "empty-operand", "single-row-operand",
-                    "dynamic-class", "nested-table", "mixed-dtype-concat", "int-index", "rows-taken-by-tolist-first"]
+                    "dynamic-class", "nested-table", "mixed-dtype-concat", "int-index", "rows-taken-by-tolist-first", "text-column-given-as-64-bit-character-codes"]
 BOUNDS = {"quick": "300 programs of up to 12 steps for each of 16 table types, tables of up to 6 rows", "thorough": "4000 programs of up to 30 steps per type, tables of up to 20 rows"}
 BUDGET_S = {"quick": 200, "thorough": 1500}
 
@@ -113,6 +113,11 @@ def build(tname, rows, dtype_variant=0):
             cols.append(bnp.as_encoded_array("".join(vals), StrandEncoding))
         elif kind == "nested":
             cols.append(Interval([v[0] for v in vals], np.array([v[1] for v in vals], dtype=int), np.array([v[2] for v in vals], dtype=int)))
+        elif kind in ("str", "seq", "seq1") and dtype_variant == 2 and vals and all(ord(c) < 128 for v in vals for c in v):
+            # the text handed over as character codes held in a 64-bit array (what np.array([ord(c) ...]) gives), wrapped as plain-text encoded data
+            from bionumpy.encoded_array import EncodedArray, EncodedRaggedArray, BaseEncoding
+            codes = np.array([ord(c) for v in vals for c in v], dtype=np.int64)
+            cols.append(EncodedRaggedArray(EncodedArray(codes, BaseEncoding), [len(v) for v in vals]))
         else:
             cols.append(list(vals))
     return dc(*cols)
@@ -182,6 +187,8 @@ def classify(case):
         cl.append("table-read-from-file")
     if case.get("tolist_first") and case["rows"]:
         cl.append("rows-taken-by-tolist-first")
+    if case.get("variant") == 2 and case["rows"] and any(k in ("str", "seq", "seq1") for _, k in kinds_of(tname)):
+        cl.append("text-column-given-as-64-bit-character-codes")
     if tname in DYNAMIC:
         cl.append("dynamic-class")
     if tname == "dyn_nested":
